@@ -14,7 +14,7 @@
 (* seeded sample; thorough: every position, and pairs for small artefacts.      *)
 EXTENDS Integers, Sequences, FiniteSets, TLC, Json
 CONSTANTS CorpusFile, OutFile, Seed,
-          ArtFrom, ArtTo,     \* this shard handles corpus lines ArtFrom..ArtTo
+          ArtSet,             \* this shard handles these corpus lines
           FullMax,            \* artefacts of at most FullMax bytes: every byte position
           SampleK,            \* longer ones: structural positions + SampleK seeded positions
           SubstAll,           \* TRUE: all substitution values at sampled positions, FALSE: three of them
@@ -28,7 +28,7 @@ Hx == INSTANCE Hex
 Em == INSTANCE Emit
 
 Corpus == ndJsonDeserialize(CorpusFile)
-Arts == {a \in ArtFrom..ArtTo : a <= Len(Corpus)}
+Arts == {a \in ArtSet : a <= Len(Corpus)}
 Orig(a) == Hx!ToBytes(Corpus[a].hex)
 IsDer(a) == Corpus[a].der
 
@@ -71,6 +71,7 @@ NodeLevel(b, ns) ==
         \/ \E d \in NestDepths : Step(M!Nest(b, ns, i, d), Desc("nest", n.off, d, c))
         \/ (n.cl > 0 /\ Step(M!Clear(b, ns, i), Desc("clear", n.off, i, c)))
         \/ (n.cons /\ Step(M!Indef(b, ns, i), Desc("indef", n.off, i, c)))
+        \/ \E k \in M!ResizeTo(n) : Step(M!Resize(b, ns, i, k), Desc("resize", n.off, k, c))
 
 (* the unmutated artefact itself (vacuity guard of the replayer: its primary entry points must accept it) *)
 Valid == /\ nmut = 0
